@@ -555,6 +555,8 @@ class RZILTransformer(Transformer):
                 Branch("branch", cond=items[0], then=Empty(""), otherwise=hybrid.stmt)
             )
 
+        then_p = self.promotion_cast(then_p)
+        else_p = self.promotion_cast(else_p)
         then_p, else_p = self.cast_operands(a=then_p, b=else_p, immutable_a=False)
         return self.add_op(Ternary(f"cond", items[0], then_p, else_p))
 
@@ -945,7 +947,9 @@ class RZILTransformer(Transformer):
         if result:
             return self.add_op(result)
         op_type = CompareOpType(items[1])
-        a, b = self.cast_operands(a=items[0], b=items[2], immutable_a=False)
+        a = self.promotion_cast(items[0])
+        b = self.promotion_cast(items[2])
+        a, b = self.cast_operands(a=a, b=b, immutable_a=False)
         return self.add_op(CompareOp(f"op_{op_type.name}", a, b, op_type))
 
     def for_loop(self, items):
